@@ -24,7 +24,8 @@ RULE = ('Single-update cases on a real broker with a stub data handler whose quo
         'price*qty at least 0.01 away from a whole number and from .5.'
         " Round-4/5 reach: the broker's fee_model attribute replaced before the fills; a third of the cases pre-load positions the orders add to, reduce, close or cross through (cash compared as a delta); a third route the orders through ExecutionHandler + MarketOrderExecutionAlgorithm at the update time."
         " Round-10 reach: update and submission times written in Berlin / Azores time (wall clock inside exchange hours in both zones); accounts in USD, GBP or EUR."
-        " Round-11 reach: update times carrying 1 or 789 nanoseconds.")
+        " Round-11 reach: update times carrying 1 or 789 nanoseconds."
+        " Round-12 reach: spreads of 3e-6; `after_refusal` - an update refuses its first order (asset without quote, ValueError caught) and whatever fills then or at the next update is still priced at that update's quote.")
 ASSUMPTIONS = [
     'the stub data handler stands in for any DataHandler (the shipped one returns bid == ask)',
     'update instants at least one minute inside exchange hours (boundaries are C04\'s subject)',
@@ -199,7 +200,43 @@ def _retune(fee_obj, case):
         setattr(fee_obj, name, case['fee'][0] if name == 'commission_pct' else case['fee'][1])
 
 
+def run_after_refusal(case):
+    """An update that raises part-way (the first order to execute is in an asset without any quote; the caller catches
+    the ValueError and carries on): whatever fills at that or any later update is still stamped with that update's time
+    and priced at that time's quote."""
+    q = load()
+    t0, t1 = cal.ts6(case['t_submit']), cal.ts6(case['t_update'])
+    t2 = t1 + pd.Timedelta(minutes=1)
+    o = case['orders'][0]
+    a, qty, bid, ask = o['asset'], o['qty'], o['bid'], o['ask']
+    nan = float('nan')
+    table = {(t1, a): (bid, ask), (t2, a): (bid * 1.07, ask * 1.07), (t1, 'EQ:NOQ'): (nan, nan), (t2, 'EQ:NOQ'): (nan, nan)}
+    dh = TimedDH(table, {a: (bid * 0.61, ask * 0.61), 'EQ:NOQ': (nan, nan)})
+    b = q.SimulatedBroker(t0, q.SimulatedExchange(t0), dh, initial_funds=0.0, fee_model=kit.fee_model(case['fee']))
+    b.create_portfolio('p')
+    log = []
+    kit.tap(b.portfolios['p'], log, 'p')
+    b.submit_order('p', q.Order(t0, 'EQ:NOQ', -5))
+    b.submit_order('p', q.Order(t0, a, qty))
+    for t in (t1, t2):
+        try:
+            b.update(t)
+        except ValueError:
+            pass
+    for _, txn in log:
+        quote = table.get((txn.dt, txn.asset))
+        if txn.dt not in (t1, t2) or quote is None:
+            raise Violation('after a refused order, a fill of %s is stamped %s; the updates were at %s and %s' % (txn.asset, txn.dt, t1, t2))
+        want = quote[1] if txn.quantity > 0 else quote[0]
+        if txn.price != want:
+            raise Violation('after an update that refused an unquoted order, %s x %r filled at %s is priced %r; the quote at '
+                            'that time is bid %r / ask %r' % (txn.asset, txn.quantity, txn.dt, txn.price, quote[0], quote[1]))
+    return len(log)
+
+
 def run_case(case):
+    if case.get('after_refusal'):
+        run_after_refusal(case)
     fee_obj = kit.fee_model(case['fee'])          # one fee-model object serves both brokers
     if case.get('retune') and isinstance(case['fee'], list):
         # a live fee model re-tuned through its public rate attributes (commission first, or tax first); with
@@ -237,6 +274,8 @@ def run_case(case):
     cls.append('fee_zero_model' if case['fee'] is None else ('fee_default' if case['fee'] == 'default' else (
         'fee_rate_positive' if rate > 0 else 'fee_rate_zero')))
     cls.append('orders_%d' % len(case['orders']))
+    if case.get('after_refusal'):
+        cls.append('updates_after_a_refused_unquoted_order')
     if case.get('ns'):
         cls.append('update_time_with_nanoseconds')
     if case.get('tz'):
@@ -287,6 +326,8 @@ def cases(draw):
         other = float('%.6g' % (p * (1 - spread)))
         if other == p:
             other = p * 0.99
+        if draw(st.sampled_from([False] * 7 + [True])):
+            other = p * (1 - 3e-6)                         # a very tight market: the sides differ in the sixth digit
         bid, ask = (other, p) if draw(st.booleans()) else (p, other)
         if draw(st.sampled_from([False] * 9 + [True])):
             bid = ask = p                                   # locked quote
@@ -318,7 +359,7 @@ def cases(draw):
         zones.append('Europe/Berlin')            # UTC+1 on these dates
     if (h, mi) >= (15, 31):
         zones.append('Atlantic/Azores')          # UTC-1 on these dates
-    return {'tz': draw(st.sampled_from(zones)), 'ns': draw(st.sampled_from([0, 0, 0, 789, 1])), 'currency': draw(st.sampled_from([None, None, 'USD', 'GBP', 'EUR'])),
+    return {'after_refusal': draw(st.sampled_from([False, False, False, True])), 'tz': draw(st.sampled_from(zones)), 'ns': draw(st.sampled_from([0, 0, 0, 789, 1])), 'currency': draw(st.sampled_from([None, None, 'USD', 'GBP', 'EUR'])),
             'second_round': draw(st.sampled_from([False, False, True])), 'retune': draw(st.sampled_from([0, 0, 1, 2, 3])), 'prior': prior, 'via_exec': draw(st.sampled_from([False, False, True])), 'swap_fee': swap, 't_submit': [t0.year, t0.month, t0.day, t0.hour, t0.minute, t0.second],
             't_update': [t1.year, t1.month, t1.day, t1.hour, t1.minute, t1.second],
             'orders': orders, 'fee': fee}
